@@ -149,6 +149,7 @@ def dedupe(fails, cap=25, keep_size=False):
     """one failure per root-cause key: the smallest witness"""
     best = {}
     for f in fails:
+        f.pop('meta', None)
         k = f['key']
         if k not in best or f.get('size', 0) < best[k].get('size', 0):
             best[k] = f
@@ -216,7 +217,7 @@ def _helper_one(which, inst, Empty, keys, v, fails, stats):
     nontrivial = bool(_key_rows(keys, v))
     for fn, mode, th, exp in tests:
         stats['evaluations'] += 1
-        stats['nontrivial'] += nontrivial
+        stats['nontrivial'] += nontrivial and which == 'runtime'
         got = lib.call_catch(th)
         if strict_same(got, exp, Empty):
             continue
@@ -251,7 +252,7 @@ def _long_columns(rng, tier):
             for i in range(n):
                 step = rng.choice([0, 0, 1, 1, 2, 3])
                 cur += step
-                keys.append(cur if rng.random() < 0.8 else cur + 0.0 if step == 0 else cur)
+                keys.append(cur if rng.random() < 0.8 else float(cur))
             if variant % 3 == 1:
                 keys[0] = 'header'
                 for i in rng.sample(range(1, n), 3):
@@ -293,7 +294,6 @@ def _helper_chunk(arg):
 
 def _check_helpers(tier, seed):
     t0 = time.time()
-    rng = random.Random(seed)
     fails, stats = [], {'evaluations': 0, 'nontrivial': 0, 'long_minimisations': 0}
     maxlen, maxlen_ab = (4, 3) if tier == 'quick' else (5, 5)
     args = [(ai, first, maxlen, maxlen_ab) for ai in (0, 1) for first in range(len(NUM_ALPHA))]
@@ -328,7 +328,7 @@ def _check_helpers(tier, seed):
                 up = [[k] for k in ks]
                 for mode, arr, exp in (('binary_ascending', up, exp_up), ('binary_descending', up[::-1], exp_dn)):
                     stats['evaluations'] += 1
-                    stats['nontrivial'] += 1
+                    stats['nontrivial'] += which == 'runtime'
                     got = lib.call_catch(inst._xmatch, v, arr, 0, 2 if mode == 'binary_ascending' else -2)
                     if not strict_same(got, exp, Empty):
                         fails.append({'key': f'C14.xmatch.{mode}', 'size': len(ks),
@@ -347,8 +347,9 @@ def _check_helpers(tier, seed):
             'rule': 'one evaluation = one call (function, match mode, result column) compared with the independent search; '
                     'exact: vlookup cols 2,3 / match 0 / xmatch (0,1) / xmatch (0,-1); approximate (only when the keys are '
                     'ascending): vlookup cols 2,3 / match 1; inputs without a clause are skipped; non-trivial = the column '
-                    'holds at least one key of the kind of the lookup value; failing inputs are minimised by deleting rows',
-            'exhaustive': True, 'evaluations': stats['evaluations'], 'distinct_nontrivial': stats['nontrivial'] // 2,
+                    'holds at least one key of the kind of the lookup value (counted once, on the emitted runtime); failing inputs '
+                    'are minimised by deleting rows',
+            'exhaustive': True, 'evaluations': stats['evaluations'], 'distinct_nontrivial': int(stats['nontrivial']),
             'failures': dedupe(fails), 'seconds': time.time() - t0,
             'samples': [{'fn': 'match', 'mode': 'approx', 'keys': [1, 2, 2, 3], 'v': 2.5, 'expected': 3},
                         {'fn': 'vlookup', 'mode': 'exact', 'keys': ['hdr', None, 2, 2.0], 'v': 2.0, 'expected': 'v3'},
@@ -371,24 +372,26 @@ def run_job(job):
         p = lib.Pipe({'sheets': job['sheets']}, d, entry=_cell_args(entry) if entry else None,
                      safety=job.get('safety', True))
         if p.error is not None:
+            slim = dict(job)
+            slim['rounds'] = [{'set': x.get('set', []), 'reads': [list(q[:7]) for q in x['reads'][:1]]} for x in job['rounds'][:1]]
             res['fails'].append({'key': job.get('errkey', 'C14.pipeline.translate'), 'size': 0,
                                  'what': f'{job.get("name", "")}: translation failed: {p.error!r}',
-                                 'replay': {'kind': 'job', 'job': job}})
+                                 'replay': {'kind': 'job', 'job': slim}})
             return res
         Empty = p.cls.EmptyCell
         for ri, rnd in enumerate(job['rounds']):
             if rnd.get('set'):
                 cells = [Cell(t, c, str(r), codec.dec(v, make_empty=Empty)) for t, c, r, v in rnd['set']]
                 p.executor.set_cells(cells)
-            for qi, (t, c, r, exp, key, desc, size) in enumerate(rnd['reads']):
+            for qi, (t, c, r, exp, key, desc, size, *meta) in enumerate(rnd['reads']):
                 got = p.value(t, c, str(r))
                 res['n'] += 1
                 e = codec.dec(exp, make_empty=lambda: None)
                 if isinstance(got, codec.Raised) or not strict_same(got, e, Empty):
                     small = dict(job)
                     small['rounds'] = [{'set': x.get('set', []), 'reads': []} for x in job['rounds'][:ri + 1]]
-                    small['rounds'][-1]['reads'] = [rnd['reads'][qi]]
-                    res['fails'].append({'key': key, 'size': size,
+                    small['rounds'][-1]['reads'] = [list(rnd['reads'][qi][:7])]
+                    res['fails'].append({'key': key, 'size': size + (1000 if e == NA else 0), 'meta': meta[0] if meta else None,
                                          'what': f'{desc} -> {got!r}, expected {"blank" if e is None else repr(e)}',
                                          'replay': {'kind': 'job', 'job': small}})
     return res
@@ -459,7 +462,7 @@ def lookup_formulas(tb, v, vtext, scen, qual='', rich=True, keys=None, alljs=Tru
     T, K = tb.rng(1, w, qual), tb.rng(1, 1, qual)
     Ta = tb.rng(1, w, qual, absolute=True)
     feat = feature(keys, v) if n <= 2000 else 'long'
-    size = n
+    size = (n, {'keys': keys, 'v': v})       # witness size + the searched input (used to attribute a failure to the helper)
 
     def k(fn, mode):
         return f'C14.pipe.{fn}.{mode}.{feat}.{scen}'
@@ -507,8 +510,9 @@ def job_from(name, sheets_tables, placed, rounds_extra=None, entry=None):
     for (title, c, r, f, exp, key, size, note) in placed:
         idx[title]['cells'].append([c, r, f])
         if key is not None:
+            sz, meta = size if isinstance(size, tuple) else (size, None)
             reads.append([title, L(c), r, codec.enc(exp) if exp is not None else {'$e': 1}, key,
-                          f'{name}: {title}!{L(c)}{r} {f} ({note})', size])
+                          f'{name}: {title}!{L(c)}{r} {f} ({note})', sz, meta])
     rounds = [{'set': [], 'reads': reads}] + (rounds_extra or [])
     return {'name': name, 'sheets': sheets, 'entry': entry, 'rounds': rounds}
 
@@ -573,15 +577,17 @@ def _table_jobs(tier, seed):
         tb = Table('S', 1, 1, keys, width=4, tag='p')
         fs = []
         for vi, v in enumerate(lookups_for(keys)):
-            fs += lookup_formulas(tb, v, lit(v), 'base', alljs=(vi < 3 or tier == 'thorough'))
+            full = vi < 2 or tier == 'thorough'
+            fs += lookup_formulas(tb, v, lit(v), 'base', rich=full or vi % 3 == 0, alljs=full)
         jobs.append(job_from(f'base/{name}', {'S': [tb]}, _place(fs, 'S', 8, 1, f'keys {short(keys)}')))
     # S2 placements: column boundaries Z/AA, ZZ/AAA (and XFD in thorough), rows around 100, formulas left of the table
     places = [(25, 98), (701, 99)] + ([(16382, 1), (26, 1000)] if tier == 'thorough' else [])
     for (c0, r0) in places:
-        for name, keys in (SMALL_COLUMNS[1], SMALL_COLUMNS[3], SMALL_COLUMNS[6], SMALL_COLUMNS[9]):
+        for name, keys in (SMALL_COLUMNS[1], SMALL_COLUMNS[3], SMALL_COLUMNS[6], SMALL_COLUMNS[9])[:4 if tier == 'thorough' else 3]:
             tb = Table('Data 1', c0, r0, keys, width=3, tag='q')
             fs = []
-            for v in lookups_for(keys):
+            looks = lookups_for(keys)
+            for v in (looks if tier == 'thorough' else looks[::2] + looks[-1:]):
                 fs += lookup_formulas(tb, v, lit(v), 'placed', rich=False)
             jobs.append(job_from(f'placed@{L(c0)}{r0}/{name}', {'Data 1': [tb]},
                                  _place(fs, 'Data 1', 1, 1, f'keys {short(keys)} at {L(c0)}{r0}',
@@ -589,6 +595,8 @@ def _table_jobs(tier, seed):
     # S3 long tables (> 100 and > 1000 rows)
     for n, r0 in ([(150, 1), (1100, 3)] if tier == 'quick' else [(150, 1), (101, 1), (1100, 3), (1001, 1), (2500, 2)]):
         for variant in range(2):
+            if tier == 'quick' and n > 1000 and variant == 0:
+                continue
             keys, cur = [], 0
             for i in range(n):
                 cur += rng.choice([0, 1, 1, 2, 5])
@@ -614,7 +622,7 @@ def _table_jobs(tier, seed):
             jobs.append(job_from(f'long{n}/{variant}', {'Big': [tb]}, _place(fs, 'Big', 7, 1, f'keys {short(keys)}')))
     # S4 two sheets: the same formula text in the same cell of two sheets with unqualified references, and
     #    qualified references to the other sheet
-    for name, keys in (SMALL_COLUMNS[2], SMALL_COLUMNS[0], SMALL_COLUMNS[10]):
+    for name, keys in (SMALL_COLUMNS[2], SMALL_COLUMNS[10], SMALL_COLUMNS[0])[:2 if tier == 'quick' else 3]:
         keys2 = list(reversed(keys))
         t1, t2 = Table('S', 1, 1, keys, 3, 'one'), Table('T 2', 1, 1, keys2, 3, 'two')
         placed = []
@@ -638,6 +646,37 @@ def _table_jobs(tier, seed):
     # S5 overrides (Executor.set_cells): lookup value cell far beyond the used range, keys / partners of the table,
     #    blank cells inside the range, most recent override wins
     jobs += _override_jobs(tier, rng)
+    # S7 seeded random tables: kind, length 1..12, order, duplicates, blanks / header / other-typed cells, placement, width
+    for ti in range(12 if tier == 'quick' else 192):
+        n = rng.randint(1, 12)
+        if rng.random() < 0.7:
+            pool = [rng.randint(-5, 40) if rng.random() < 0.75 else rng.randint(-10, 80) / 4 for _ in range(n)]
+            filler = ['hdr', None, None, DATE, 'x']
+        else:
+            pool = [''.join(rng.choice('abcdk') for _ in range(rng.randint(1, 3))) for _ in range(n)]
+            filler = [None, None, 7, 3.5, True, DATE]
+        if rng.random() < 0.4:
+            pool = [rng.choice(pool) for _ in range(n)]          # duplicates
+        if rng.random() < 0.6:
+            pool.sort()
+        keys = list(pool)
+        for _ in range(rng.choice([0, 0, 1, 2, 3])):
+            pos_ = rng.choice([0, len(keys), len(keys), rng.randint(0, len(keys))])
+            keys.insert(pos_, rng.choice(filler))
+        if not any(kind(k) in ('num', 'text') for k in keys):
+            continue
+        c0 = rng.choice([1, 2, 3, 25, 26, 27, 52, 100, 255, 256, 701, 702])
+        r0 = rng.choice([r for r in (1, 1, 2, 3, 50, 98, 99, 100, 101, 999, 1000) if (r + 12) * (c0 + 8) <= 30000])
+        width = rng.randint(2, 5)
+        tb = Table('R nd', c0, r0, keys, width, f't{ti}_')
+        fs = []
+        looks = lookups_for(keys)
+        for v in (looks if tier == 'thorough' else looks[:5] + looks[-2:]):
+            fs += lookup_formulas(tb, v, lit(v), 'random', rich=rng.random() < 0.5, alljs=rng.random() < 0.3)
+        fc = c0 + width + 1 + rng.randint(0, 2)
+        jobs.append(job_from(f'random{ti}', {'R nd': [tb]},
+                             _place(fs, 'R nd', fc, rng.choice([1, r0, max(1, r0 - 1)]),
+                                    f'keys {short(keys)} at {L(c0)}{r0}, width {width}')))
     # S6 entry-point translation
     for name, keys in (SMALL_COLUMNS[1], SMALL_COLUMNS[6], SMALL_COLUMNS[10]):
         tb = Table('S', 3, 2, keys, 3, 'e')
@@ -660,9 +699,9 @@ def _override_jobs(tier, rng):
     scen = 'override'
     for name, keys in (SMALL_COLUMNS[0], SMALL_COLUMNS[2], SMALL_COLUMNS[9], SMALL_COLUMNS[3]):
         n0 = len(keys)
-        tb = Table('S', 1, 1, keys + [None] * 5, 3, 'o')       # the range extends 5 blank rows below the data
-        for j in (1, 2):
-            for i in range(n0, n0 + 5):
+        tb = Table('S', 1, 1, keys + [None] * 14, 3, 'o')      # the range extends 14 blank rows below the data,
+        for j in (1, 2):                                       # the last ones lie beyond the used range of the sheet
+            for i in range(n0, n0 + 14):
                 tb.cols[j][i] = None
         is_num = kind(keys[0]) == 'num'
         # the formula texts are fixed at translation time; the lookup value is the cell AZ300 (blank, far beyond the
@@ -680,6 +719,8 @@ def _override_jobs(tier, rng):
                 ([('K', n0, hi + 5), ('P', n0, 'new6'), ('L', hi + 5)], 'blank row of the range filled by override'),
                 ([('K', n0 + 1, hi + 5), ('P', n0 + 1, 'dup7'), ('L', hi + 5)], 'duplicate of the new key added below'),
                 ([('L', hi + 7.5)], 'lookup above every key incl. the overridden ones'),
+                ([('K', n0 + 12, hi + 20), ('P', n0 + 12, 'far'), ('L', hi + 20)],
+                 'row of the range beyond the used range of the sheet filled by override'),
                 ([('K', 1, keys[1] + 0.5), ('L', keys[1] + 0.5)], 'existing key replaced by a fraction'),
                 ([('L', keys[1])], 'old key value looked up after it was replaced'),
                 ([('K', 0, None), ('L', keys[0])], 'first key blanked by override'),
@@ -692,6 +733,8 @@ def _override_jobs(tier, rng):
                 ([('L', keys[1])], 'lookup cell overridden'),
                 ([('L', 'zzzz')], 'lookup above every key, blank rows below the data'),
                 ([('K', n0, 'zebra'), ('P', n0, 'new6'), ('L', 'zebra')], 'blank row of the range filled by override'),
+                ([('K', n0 + 12, 'zoo'), ('P', n0 + 12, 'far'), ('L', 'zoo')],
+                 'row of the range beyond the used range of the sheet filled by override'),
                 ([('K', 1, 'avocado'), ('L', 'avocado')], 'existing key replaced'),
                 ([('L', keys[1])], 'old key value looked up after it was replaced'),
                 ([('K', 0, None), ('L', keys[0])], 'first key blanked by override'),
@@ -718,7 +761,7 @@ def _override_jobs(tier, rng):
                 if f in pos:
                     reads.append(['S', 'F', pos[f], codec.enc(exp) if exp is not None else {'$e': 1}, key,
                                   f'override/{name}: {f} with AZ300={cur_v!r}, keys now {short(state)} ({note})',
-                                  len(state) + 50])
+                                  len(state) + 50, size[1]])
             job['rounds'].append({'set': enc_sets, 'reads': reads})
         jobs.append(job)
     return jobs
@@ -756,10 +799,39 @@ def _parser_reuse(fails):
                 got = got if isinstance(got, codec.Raised) else got.value
                 n += 1
                 if not strict_same(got, exp, cls.EmptyCell):
-                    fails.append({'key': key, 'size': 3,
+                    fails.append({'key': key, 'size': 3, 'meta': size[1],
                                   'what': f're-used Parser/Executor, workbook {step} keys {keys}: {f} -> {got!r}, expected {exp!r}',
                                   'replay': {'kind': 'parser_reuse'}})
     return n
+
+
+HELPER_MODE = {'exact': 'exact', 'exact_default': 'exact', 'exact_from_end': 'exact_from_end', 'approx': 'approx',
+               'approx_default': 'approx'}
+
+
+def _attribute(fails):
+    """A pipeline failure whose input also fails when given directly to the emitted runtime helper has its root cause in
+    the helper: it is re-keyed to the helper key (minimised input), so that one defect is reported once and not once per
+    scenario.  Everything else keeps the pipeline key C14.pipe.<fn>.<mode>.<feature>.<scenario>."""
+    cls = lib.get_class('runtime')
+    inst, Empty = cls(), cls.EmptyCell
+    budget = 40
+    for f in fails:
+        meta = f.pop('meta', None)
+        parts = f['key'].split('.')
+        if not meta or len(parts) < 5 or parts[1] != 'pipe':
+            continue
+        fn, mode = parts[2], HELPER_MODE.get(parts[3])
+        if fn == 'index_match':
+            fn, mode = 'match', 'exact'
+        if mode is None:
+            continue
+        keys, v = meta['keys'], meta['v']
+        if _helper_fails(inst, Empty, keys, v, fn, mode):
+            budget -= 1
+            mk = _minimise(inst, Empty, keys, v, fn, mode) if (len(keys) <= 200 and budget > 0) else keys
+            f['key'] = f'C14.{fn}.{mode}.{feature(mk, v)}'
+            f['what'] += f'  [root cause in the helper: _{fn} fails on lookup {v!r} in {short(mk)}]'
 
 
 def _check_tables(tier, seed):
@@ -767,6 +839,8 @@ def _check_tables(tier, seed):
     jobs = _table_jobs(tier, seed)
     n, fails = run_jobs(jobs)
     n += _parser_reuse(fails)
+    fails.sort(key=lambda f: f.get('size', 0))
+    _attribute(fails)
     nform = sum(len(r['reads']) for j in jobs for r in j['rounds'])
     return {'name': 'C14.monitor.pipeline_tables',
             'bound': f'{len(jobs)} workbooks through Parser -> generated class -> Executor: {len(SMALL_COLUMNS)} planted key '
@@ -777,7 +851,8 @@ def _check_tables(tier, seed):
                      '0,1/0,-1), INDEX(MATCH); tables placed at A1, Y98 (Z/AA boundary), ZY99 (ZZ/AAA), XFB1 and Z1000 '
                      '(thorough); tables of 150 and 1100 rows (101..2500 thorough); two sheets holding the same formula text '
                      'and cross-sheet references; override rounds with Executor.set_cells on the lookup cell AZ300 (beyond '
-                     'the used range), key cells, blank rows of the range, repeated overrides; entry-point translation '
+                     'the used range), key cells, blank rows of the range (14, the last ones beyond the used range), repeated '
+                     f'overrides; {12 if tier == "quick" else 192} seeded random tables (length 1..12, random placement/width); entry-point translation '
                      'through a dependency; one Parser/Executor re-used for three workbooks',
             'rule': 'one evaluation = the value of one formula cell compared with the independent search over the planted '
                     '(or overridden) table; formulas whose input has no clause are not generated',
@@ -951,6 +1026,13 @@ def _check_index(tier, seed):
     f = '=INDEX((L1:M2,M4:N6),1,1,3)'
     cells.append([16, row, f])
     reads.append(['S', 'P', row, REF, 'C14.pipe.index.areas.outside', f, 6])
+    row += 1
+    for r, c in ((1, 1), (2, 2), (3, 1)):                      # area number omitted: the first area
+        exp = _index_expected(a1, r, c)
+        f = f'=INDEX((L1:M2,M4:N6),{r},{c})'
+        cells.append([16, row, f])
+        reads.append(['S', 'P', row, codec.enc(exp), 'C14.pipe.index.areas.default_area', f, 6])
+        row += 1
     jobs.append({'name': 'index_match', 'sheets': [{'title': 'S', 'cells': cells}, {'title': 'Other', 'cells': other}],
                  'entry': None, 'rounds': [{'set': [], 'reads': reads}]})
     pn, pf = run_jobs(jobs)
@@ -1017,7 +1099,7 @@ def _check_address(tier, seed):
     if tier == 'thorough':
         cols = list(range(1, 16385))
     else:
-        cols = sorted(set(BOUNDARY_COLS) | set(range(1, 16385, 13)))
+        cols = sorted(set(BOUNDARY_COLS) | set(range(1, 16385, 29)))
     per = max(1, (len(cols) + NPROC - 1) // NPROC)
     for i in range(0, len(cols), per):
         cells, reads, row = [], [], 1
@@ -1041,7 +1123,7 @@ def _check_address(tier, seed):
             'bound': '_address(r, c) of both runtime copies for ALL c in 1..16384 x r in {1, 1048576}, and with reference '
                      'types 1..4 for all c (r=7); =ADDRESS(A1,B1) through the pipeline with (r, c) set by overrides for all '
                      f'16384 x 2 pairs; literal =ADDRESS(r,c) formulas for {len(cols)} columns '
-                     f'({"all" if tier == "thorough" else "every 13th + 35 boundary columns 26/27/52/53/676..704/16383/16384"}), '
+                     f'({"all" if tier == "thorough" else "every 29th + 37 boundary columns 26/27/52/53/676..704/16383/16384"}), '
                      'reference types 1..4 at the boundary columns',
             'rule': "one evaluation = one address compared with '$'+letters(c)+'$'+r, letters(c) read from the enumeration "
                     'A..Z, AA..ZZ, AAA..XFD',
@@ -1058,7 +1140,7 @@ def _check_column(tier, seed):
     if tier == 'thorough':
         cols = list(range(1, 16385))
     else:
-        cols = sorted(set(BOUNDARY_COLS) | set(range(1, 16385, 11)))
+        cols = sorted(set(BOUNDARY_COLS) | set(range(1, 16385, 23)))
     per = max(1, (len(cols) + NPROC - 1) // NPROC)
     for i in range(0, len(cols), per):
         cells, reads, row = [], [], 1
@@ -1124,7 +1206,7 @@ def _check_column(tier, seed):
     pn, pf = run_jobs(jobs)
     return {'name': 'C14.monitor.column',
             'bound': f'=COLUMN(ref) through the pipeline for {len(cols)} columns '
-                     f'({"all 16384" if tier == "thorough" else "every 11th + boundary columns 26/27/52/53/676..704/16383/16384"}) '
+                     f'({"all 16384" if tier == "thorough" else "every 23rd + boundary columns 26/27/52/53/676..704/16383/16384"}) '
                      "with ref forms X1, $X$7, X$1048576, X5:X9, 'T 2'!X3, T2!X101; =COLUMN() / COLUMN()+0 / ADDRESS(3,COLUMN()) / "
                      f'COLUMN()*1000+COLUMN(X1) planted in columns {own_cols} (rows 1..4, 150) on one sheet and on two sheets '
                      '(same text, shifted columns); three dependency chains in which each cell has its own COLUMN(), whole-file '
